@@ -156,6 +156,33 @@ def gen_image(rng, kind, P):
             if rng.chance(1, 2):
                 im.set(0, b, ZZ[rng.range(1, 63)], rng.choice([1, -1, 2, -7, acmax]))
         return im
+    if kind == "arithri":
+        # thousands of tiny restart intervals for the arithmetic coder: every interval ends with the D.1.8 flush,
+        # about 1 in 600 flushes a 0xFF byte that must be stuffed in front of the RSTn / EOI marker
+        wbk = rng.range(50, 70)
+        hbk = rng.range(40, 50)
+        im = Image(P, wbk * 8, hbk * 8, [(1, 1)])
+        im.kind = kind
+        im.model_variants = {0, 1}
+        for b in range(im.nblocks(0)):
+            im.set(0, b, 0, rng.range(-300, 300))
+            for _ in range(rng.below(4)):
+                im.set(0, b, ZZ[rng.range(1, 20)], rng.choice([1, -1, 2, -2, 3, -5, 9, -17, 40]))
+        return im
+    if kind == "expmcu":
+        # very expensive multi-block MCUs (each block < 512 coded bytes, the MCU > 512): the decoder's fast path
+        # needs BUFSIZE * blocks_in_MCU bytes of lookahead
+        samp = rng.choice([[(4, 2), (1, 1), (1, 1)], [(2, 2), (1, 1), (1, 1)], [(4, 1), (1, 1), (1, 1)], [(2, 2), (2, 1), (1, 1)],
+                           [(2, 4), (1, 1), (1, 1)], [(3, 2), (1, 1), (1, 1)]])
+        hm, vm = samp[0]
+        im = Image(P, 8 * hm * rng.range(1, 3), 8 * vm * rng.range(1, 2), samp)
+        im.kind = kind
+        for c in range(im.NC):
+            for b in range(im.nblocks(c)):
+                im.set(c, b, 0, rng.choice([dcmin, dcmax, 0]))
+                for k in range(1, 64):
+                    im.set(c, b, k, rng.choice([acmax, -acmax, acmax - rng.below(400), -(acmax - rng.below(400))]))
+        return im
     if kind == "deephuff":
         # (run,size) symbol counts shaped like Fibonacci numbers over n symbols: the plain Huffman tree of the
         # optimised AC table is n-1 .. n levels deep (> 16), so jpeg_gen_optimal_table must limit the lengths
@@ -358,6 +385,13 @@ def special_configs(rng, im):
         over = lambda: rng.choice(["ri=65536", "ri=%d" % rng.range(65537, m - 1), "rows=%d" % rows_over, "rows=%d" % (rows_over + 1)])
         return [("opt", "src=a nobi nosu opt=1 " + over()), ("def", "src=a nobi opt=0 " + pick()), ("prog", "src=a nobi nosu prog=1 " + pick()),
                 ("arith", "src=a nobi nosu arith=1 " + over()), ("trans", "src=p nobi nosu opt=1 " + pick())]
+    if im.kind == "arithri":
+        return [("arith", "src=a nobi arith=1 ri=1 " + rand_dac(rng)), ("arith", "src=a nobi arith=1 ri=%d" % rng.choice([2, 3])),
+                ("arithprog", "src=a nobi arith=1 prog=1 ri=1"), ("arithprog", "src=a nobi arith=1 ri=%d scans=%s" % (rng.choice([1, 2, 3]),
+                 script_str(random_complete_script(rng, im, max_al=1))))]
+    if im.kind == "expmcu":
+        return [("def", "src=a opt=0"), ("opt", "src=a opt=1"), ("noninter", "src=a opt=0 scans=" + script_str(sequential_script(rng, im))),
+                ("trans", "src=p opt=0 ri=%d" % rng.choice([0, 0, 1])), ("prog", "src=a prog=1")]
     if im.kind == "deephuff":
         return [("opt", "src=a opt=1"), ("script", "src=a scans=0:0:0:0:0/0:1:63:0:0"), ("prog", "src=a prog=1"),
                 ("script", "src=a ri=%d scans=0:0:0:0:%d/0:1:%d:0:0/0:%d:63:0:0/0:0:0:1:0" % (rng.choice([0, 7]), 1, 20, 21)),
@@ -699,6 +733,26 @@ def run(ctx):
         im = gen_image(rng, "deephuff", 12 if j % 3 == 2 else 8)
         cfgs = special_configs(rng, im)
         cases.append((case_line(im, cfgs), "img-deephuff-%d" % im.P, im, cfgs))
+    for j in range(ctx.n(1, 8)):
+        im = gen_image(rng, "arithri", 8)
+        cfgs = special_configs(rng, im)
+        cases.append((case_line(im, cfgs), "img-arithri-8", im, cfgs))
+    for j in range(ctx.n(6, 120)):
+        im = gen_image(rng, "expmcu", 8)
+        cfgs = special_configs(rng, im)
+        cases.append((case_line(im, cfgs), "img-expmcu-8", im, cfgs))
+    # compression from pixels through a suspending destination (single-pass Huffman): bytes must not depend on it
+    for j in range(ctx.n(10, 300)):
+        nc = rng.choice([1, 1, 3])
+        samp = [rng.choice([(1, 2), (1, 2), (2, 2), (1, 1), (1, 4), (2, 1)])] if nc == 1 else \
+            [rng.choice([(2, 2), (2, 2), (2, 1), (1, 2), (4, 2)]), (1, 1), (1, 1)]
+        W = rng.range(20, 200)
+        H = rng.range(8 * samp[0][1] + 1, 80)
+        sizes = sorted(set(rng.range(520, 1600) for _ in range(6)) | {520, 4096})
+        line = "pix %d %d %d %d %d | %s | opt=0 %s | %s" % (nc, W, H, rng.choice([30, 50, 75, 90]), rng.below(1 << 30),
+                                                          " ".join("%d %d" % hv for hv in samp), rng.choice(["", "", "ri=3", "rows=1"]),
+                                                          " ".join(map(str, sizes)))
+        cases.append((line, "pix-susp-dest", None, None))
     for j in range(ctx.n(1, 6)):
         im = gen_image(rng, "bigmcu", 8)
         cfgs = special_configs(rng, im)
@@ -709,7 +763,7 @@ def run(ctx):
 
 
 def strip_px(l):
-    return " ".join(t for t in l.split(" ") if not (t.startswith("px=") or t.startswith("bi=")))
+    return " ".join(t for t in l.split(" ") if not (t.startswith("px=") or t.startswith("bi=")))  # ck=/su= are compared
 
 
 def case_line(im, cfgs):
@@ -757,7 +811,8 @@ def run_cases(ctx, cases, exes, drv, flavours):
     seen = set()
     for i, (line, kind, im, cfgs) in enumerate(cases):
         if im is None:
-            mlines_in.append(((i, -1, ""), line, None))
+            if not line.startswith("pix "):
+                mlines_in.append(((i, -1, ""), line, None))
             continue
         for fl in flavours:
             if outs[fl][i] == "<crash>":
@@ -794,6 +849,29 @@ def run_cases(ctx, cases, exes, drv, flavours):
             if impl != "<crash>" and outs[fl][i] != "<crash>" and strip_px(outs[fl][i]) != strip_px(impl):
                 ctx.violation("builds disagree (%s vs %s): different bytes / result for the same coefficients and settings" % (flavours[0], fl),
                               {"case": line, flavours[0]: impl[:2000], fl: outs[fl][i][:2000]}, signature="build-disagree:" + kind)
+        if im is None and line.startswith("pix "):
+            # ---------------- suspending destination: same bytes as the one-buffer compression
+            if impl != "<crash>":
+                for fl in flavours:
+                    o = outs[fl][i]
+                    if o == "<crash>":
+                        continue
+                    if not o.startswith("ok "):
+                        ctx.violation("compressing pixels fails (%s build): %s" % (fl, o[:80]), {"case": line, "flavour": fl}, signature="pix-error")
+                        continue
+                    for part in o.split(" | ")[1:]:
+                        sz, res = part.split("=", 1)
+                        sd = ctx.cov.setdefault("suspending_dest_runs", {})
+                        sd[res.split("@")[0].split(":")[0]] = sd.get(res.split("@")[0].split(":")[0], 0) + 1
+                        if res.startswith("ne"):
+                            ctx.violation("compression through a suspending destination of %s bytes emits different bytes than the one-buffer "
+                                          "compression (%s build): first difference at offset %s" % (sz, fl, res[3:]),
+                                          {"case": line, "flavour": fl, "bufsize": sz, "result": part}, signature="suspdest-mismatch")
+                        elif res.startswith("err") and "CANT_SUSPEND" not in res:
+                            ctx.violation("compression through a suspending destination of %s bytes fails: %s" % (sz, res),
+                                          {"case": line, "flavour": fl}, signature="suspdest-error")
+            ctx.count(kind, 1, ("pix", impl[:80]))
+            continue
         if im is None:
             # ---------------- scan script: property-level + model
             if impl == "<crash>":
@@ -836,6 +914,13 @@ def run_cases(ctx, cases, exes, drv, flavours):
                                   signature="warn:%s" % fam)
                 su = next((t for t in f[5:] if t.startswith("su=")), "su=skip")
                 bi = next((t for t in f[5:] if t.startswith("bi=")), "bi=skip")
+                ck = next((t for t in f[5:] if t.startswith("ck=")), "ck=1")
+                if ck.startswith("ck=0"):
+                    ctx.violation("decoding through a refilling (stdio-like, chunked) source gives different coefficients than the one-buffer "
+                                  "decode under '%s' (%s build): %s" % (cfg[:160], fl, ck), rep, signature="chunked-mismatch:%s" % fam)
+                if fl == flavours[0] and "arith=1" in cfg and " ri=" in cfg + " ":
+                    ctx.cov["arith_segments_ending_in_stuffed_ff"] = ctx.cov.get("arith_segments_ending_in_stuffed_ff", 0) + \
+                        sum(f[1].count("ff00ffd%d" % d) for d in range(8))
                 if su.startswith("su=0"):
                     ctx.violation("decoding through a suspending source gives different coefficients than the one-buffer decode "
                                   "under '%s' (%s build): %s (chunk size:c,block,k:got/expected)" % (cfg[:160], fl, su), rep,
